@@ -10,6 +10,7 @@ package mocktikv
 //@ func (*MVCCLevelDB) Cleanup
 //@   prop C12
 //@   opaque-callee getTxnCommitInfo Decode newIterator CleanUp lockErr
+//@   at call(rollbackLock) assert own: dec.lock.startTS == startTS && arg_startTS == startTS && arg_batch == batch
 //@   ensures persisted: result == nil ==> batch.n == 0 || batch.written
 
 //@ func (*MVCCLevelDB) Commit
@@ -91,3 +92,12 @@ package mocktikv
 //@   at call(pessimisticRollbackKey) assert expired: uint64(uint64(oracle.ExtractPhysical(lock.startTS)) + lock.ttl) < uint64(oracle.ExtractPhysical(currentTS)) && lock.startTS == lockTS && lock.op == kvrpcpb.Op_PessimisticLock
 //@   at call(Put) assert pushed: lock.minCommitTS >= callerStartTS + 1 && lock.startTS == lockTS
 //@   ensures exclusive: err == nil ==> !(ttl > 0 && commitTS > 0)
+//@   ensures pushed: err == nil && ttl > 0 && action == kvrpcpb.Action_MinCommitTSPushed && callerStartTS != 18446744073709551615 ==> lock.minCommitTS > callerStartTS
+
+// GC refuses a key that carries a lock at or below the safe point and writes what it collected. (Which versions it
+// collects is not specified here.)
+//@ func (*MVCCLevelDB) GC
+//@   prop C12
+//@   opaque-callee newScanIterator Decode Valid Release mvccDecode mvccEncode Key
+//@   at def(keepNext) assert unlocked: !(ok && lockDec.lock.startTS <= safePoint)
+//@   ensures persisted: result == nil ==> batch.written
